@@ -49,6 +49,11 @@ Section Quantized.
     else QOk (takez k (pre (xsearch X s q k ef))).
 End Quantized.
 
+(** what a pre-ranking stage may do with the candidates: reorder, drop, re-key — never invent or
+    duplicate an id (premise of [qsearch_sound]; holds for the three stages below) *)
+Definition pre_ok {D : Type} (pre : list (Z * D) -> list (Z * D)) : Prop :=
+  forall l, NoDup (map fst l) -> NoDup (map fst (pre l)) /\ incl (map fst (pre l)) (map fst l).
+
 (** the pre-ranking stages.  [key id] = the quantised distance of a stored vector ([None]: the id
     has no quantised form, [filter_map] drops it). *)
 Section Pre.
